@@ -35,6 +35,11 @@ func (m *Machine) lockState(p *Value) *lockState {
 }
 
 func (m *Machine) yield(why string) {
+	if m.P.ExplicitYield && why != "symapi.Yield" && why != "field access" {
+		// explicit mode: context switches only at symapi.Yield (placed in the fakes at the
+		// operations whose order is observable), configured fields, spawns and blocking
+		return
+	}
 	if m.threads != nil {
 		m.threads.yield(m, why)
 	}
